@@ -68,32 +68,62 @@ section
 variable {S : Schema} {T : String → Bytes → Bytes} {r : Rec} {g : String → Val → Bool}
 variable {d : StructDef} {vs : List (String × Val)}
 
-/-- on a conditional member, the condition on the object is the condition on the
-    discriminant that `deserialize` reads -/
+/-- on a conditional member, the condition on the object (`p`) is the condition on the discriminant
+    that `deserialize` reads (`pd`) -- except for an empty byte array tested by truthiness, which is not
+    written although `deserialize` will look for it (and read it back from no bytes) -/
 theorem cond_disc {f : Field} {c : Cond} {gk : Field} {p : Bool} (hc : f.cond = some c)
     (hl : lookupField d.fields c.field = some gk)
     (hcov : discKindOk c gk.kind = true)
     (hadm : admCond r d vs f = true)
     (hp : condOnObject r d.fields vs f = .ok p) :
-    ∃ a, discOnObject r d vs c = .ok a ∧ condHolds c.op c.value a = .ok p := by
+    ∃ a pd, discOnObject r d vs c = .ok a ∧ condHolds c.op c.value a = .ok pd ∧
+      (pd = p ∨ (pd = true ∧ p = false ∧ f.kind.isBarray = true ∧ Val.get vs f.name = some (.bytes []))) := by
   unfold discKindOk at hcov
   unfold admCond at hadm
-  simp only [hc, Bool.and_eq_true] at hadm
+  simp only [hc] at hadm
   by_cases hvs : c.viaSelf = true
-  · have h2 := hadm.2
-    simp only [hvs, if_true] at h2
+  · simp only [hvs, if_true] at hadm
     unfold condOnObject at hp
     simp only [hc, hvs, if_true, Except.ok.injEq] at hp
     cases hdo : discOnObject r d vs c with
-    | error e => simp [hdo] at h2
+    | error e => simp [hdo] at hadm
     | ok a =>
-      simp only [hdo] at h2
+      simp only [hdo] at hadm
       cases hch : condHolds c.op c.value a with
-      | error e => simp [hch] at h2
-      | ok p' =>
-        simp only [hch, beq_iff_eq] at h2
-        exact ⟨a, rfl, by rw [hch, h2, hp]⟩
-  · unfold condOnObject at hp
+      | error e => simp [hch] at hadm
+      | ok pd =>
+        simp only [hch] at hadm
+        refine ⟨a, pd, rfl, hch, ?_⟩
+        cases pd with
+        | false =>
+          simp only at hadm
+          cases hv : Val.get vs f.name with
+          | none => simp [hv] at hadm
+          | some v =>
+            cases v <;> simp [hv] at hadm
+            left
+            rw [← hp, hv]
+            rfl
+        | true =>
+          simp only at hadm
+          cases hv : Val.get vs f.name with
+          | none => simp [hv] at hadm
+          | some v =>
+            simp only [hv, Bool.or_eq_true, Bool.and_eq_true] at hadm
+            rw [hv] at hp
+            simp only [Option.getD_some] at hp
+            rcases hadm with h | ⟨hb, he⟩
+            · left; rw [← hp, h]
+            · right
+              have hve : v = .bytes [] := by
+                unfold Val.isEmptyBytes at he
+                cases v with
+                | bytes b => cases b <;> simp at he ⊢
+                | _ => simp at he
+              subst hve
+              exact ⟨rfl, by rw [← hp]; rfl, hb, rfl⟩
+  · simp only [hvs, Bool.false_eq_true, if_false] at hadm
+    unfold condOnObject at hp
     simp only [hc, hvs, Bool.false_eq_true, if_false, hl] at hp
     simp only [hvs, Bool.false_or, Bool.or_eq_true] at hcov
     unfold discOnObject
@@ -102,27 +132,27 @@ theorem cond_disc {f : Field} {c : Cond} {gk : Field} {p : Bool} (hc : f.cond = 
     | sizeRef w s t dl =>
       simp only [hk, FK.carries, Bool.false_eq_true, if_false, derivedValue] at hp ⊢
       obtain ⟨a, ha1, ha2⟩ := bind_eq_ok.mp hp
-      exact ⟨a, ha1, ha2⟩
+      exact ⟨a, p, ha1, ha2, .inl rfl⟩
     | int w s =>
       simp only [hk, FK.carries, if_true] at hp ⊢
       cases hv : Val.get vs c.field with
       | none => simp [hv] at hp
-      | some v => cases v <;> simp only [hv] at hp <;> first | exact ⟨_, rfl, hp⟩ | cases hp
+      | some v => cases v <;> simp only [hv] at hp <;> first | exact ⟨_, p, rfl, hp, .inl rfl⟩ | cases hp
     | ref ty l =>
       simp only [hk, FK.carries, if_true] at hp ⊢
       cases hv : Val.get vs c.field with
       | none => simp [hv] at hp
-      | some v => cases v <;> simp only [hv] at hp <;> first | exact ⟨_, rfl, hp⟩ | cases hp
+      | some v => cases v <;> simp only [hv] at hp <;> first | exact ⟨_, p, rfl, hp, .inl rfl⟩ | cases hp
     | barray sf =>
       simp only [hk, FK.carries, if_true] at hp ⊢
       cases hv : Val.get vs c.field with
       | none => simp [hv] at hp
-      | some v => cases v <;> simp only [hv] at hp <;> first | exact ⟨_, rfl, hp⟩ | cases hp
+      | some v => cases v <;> simp only [hv] at hp <;> first | exact ⟨_, p, rfl, hp, .inl rfl⟩ | cases hp
     | array e m al pl k =>
       simp only [hk, FK.carries, if_true] at hp ⊢
       cases hv : Val.get vs c.field with
       | none => simp [hv] at hp
-      | some v => cases v <;> simp only [hv] at hp <;> first | exact ⟨_, rfl, hp⟩ | cases hp
+      | some v => cases v <;> simp only [hv] at hp <;> first | exact ⟨_, p, rfl, hp, .inl rfl⟩ | cases hp
     | reserved w s value => simp [hk, FK.carries] at hcov
     | sizeF w => simp [hk, FK.carries] at hcov
     | count w s t a => simp [hk, FK.carries] at hcov
@@ -160,16 +190,23 @@ theorem disc_entry {c : Cond} {gk : Field} {v0 : Val} {a : Int}
 
 /-- an absent conditional member: the local is `none`, as is the object's member -/
 theorem entry_absent {f : Field} {c : Cond} (hc : f.cond = some c) (hadm : admCond r d vs f = true)
-    (hp : condOnObject r d.fields vs f = .ok false) : EntryOk r d vs f .none := by
+    (hp : condOnObject r d.fields vs f = .ok false)
+    {a : Int} (hda : discOnObject r d vs c = .ok a) (hch : condHolds c.op c.value a = .ok false) :
+    EntryOk r d vs f .none := by
   unfold EntryOk
   by_cases hcar : f.kind.carries = true
   · simp only [hcar, if_true]
     unfold admCond at hadm
-    simp only [hc, hp, hcar, Bool.not_true, Bool.false_or, Bool.and_eq_true] at hadm
-    have h1 := hadm.1
-    cases hv : Val.get vs f.name with
-    | none => simp [hv] at h1
-    | some v => cases v <;> simp [hv] at h1 ⊢
+    simp only [hc] at hadm
+    by_cases hvs : c.viaSelf = true
+    · simp only [hvs, if_true, hda, hch] at hadm
+      cases hv : Val.get vs f.name with
+      | none => simp [hv] at hadm
+      | some v => cases v <;> simp [hv] at hadm ⊢
+    · simp only [hvs, Bool.false_eq_true, if_false, hp, hcar, Bool.not_true, Bool.false_or] at hadm
+      cases hv : Val.get vs f.name with
+      | none => simp [hv] at hadm
+      | some v => cases v <;> simp [hv] at hadm ⊢
   · simp only [hcar, Bool.false_eq_true, if_false]
     exact .inr ⟨hp, trivial⟩
 
@@ -214,28 +251,46 @@ theorem decStep_std (hr : RecOk S g r)
     simp only
     obtain ⟨gk, v0, hl, hn, hpk, hv0, he0⟩ := env_ref henv (hcond c hc)
     have hl' : lookupField d.fields c.field = some gk := by rw [hsplit]; exact lookupField_append hl
-    obtain ⟨a, hda, hch⟩ := cond_disc hc hl' hpk hadm hp
+    obtain ⟨a, pd, hda, hch, hpd⟩ := cond_disc hc hl' hpk hadm hp
     have hv0' := disc_entry hl' hn he0 hda
     subst hv0'
-    have hce : condOnEnv st.env c = .ok p := by
+    have hce : condOnEnv st.env c = .ok pd := by
       unfold condOnEnv
       rw [envInt_of_get hv0]
       exact hch
     unfold decCondField
     simp only [hv0, Option.isSome_some, if_true, hce, bind, Except.bind]
-    cases p with
-    | true =>
-      simp only [if_true] at he ⊢
-      obtain ⟨v, hdec, hfull⟩ := decPayload_of_enc hr hnd hsplit hwf henv hm he rest hrest
-      refine ⟨v, EntryOk.of_full hp hfull, ?_⟩
-      rw [hbuf, hdec]
-      simp [pure, Except.pure]
-    | false =>
-      simp only [Bool.false_eq_true, if_false, Except.ok.injEq] at he ⊢
+    rcases hpd with rfl | ⟨rfl, rfl, hbar, hval⟩
+    · cases pd with
+      | true =>
+        simp only [if_true] at he ⊢
+        obtain ⟨v, hdec, hfull⟩ := decPayload_of_enc hr hnd hsplit hwf henv hm he rest hrest
+        refine ⟨v, EntryOk.of_full hp hfull, ?_⟩
+        rw [hbuf, hdec]
+        simp [pure, Except.pure]
+      | false =>
+        simp only [Bool.false_eq_true, if_false, Except.ok.injEq] at he ⊢
+        subst he
+        refine ⟨.none, entry_absent hc hadm hp hda hch, ?_⟩
+        simp only [List.nil_append] at hbuf
+        simp [pure, Except.pure, hbuf]
+    · -- an empty byte array tested by truthiness: not written, read back from no bytes
+      simp only [Bool.false_eq_true, if_false, Except.ok.injEq] at he
       subst he
-      refine ⟨.none, entry_absent hc hadm hp, ?_⟩
       simp only [List.nil_append] at hbuf
-      simp [pure, Except.pure, hbuf]
+      cases hk : f.kind with
+      | barray sf =>
+        unfold wfFieldAt at hwf
+        simp only [hk] at hwf
+        obtain ⟨w, s, ab, i, hi, hei⟩ := env_count henv hwf
+        simp only [derivedValue, hval, Except.ok.injEq] at hi
+        subst hi
+        refine ⟨.bytes [], ?_, ?_⟩
+        · unfold EntryOk
+          simp [hk, FK.carries, hval]
+        · unfold decPayload
+          simp [hk, hei, bind, Except.bind, pure, Except.pure, hbuf]
+      | _ => simp [hk, FK.isBarray] at hbar
 
 end
 
